@@ -10,6 +10,7 @@ import (
 	"strings"
 	"sync"
 	"testing"
+	"time"
 
 	"github.com/centrifugal/centrifuge"
 	"github.com/centrifugal/centrifuge/verifx/kit"
@@ -816,7 +817,9 @@ func TestC33(t *testing.T) {
 			"join/leave frames are built by the accessor VerifRedisJoinFrame/VerifRedisLeaveFrame with the same expression publishJoin/publishLeave use (append(joinTypePrefix, msg...))",
 			"extractPushData / handleRedisClientMessage are called exactly as the PUB/SUB worker goroutines call them, which have no recover(): a panic there terminates the process",
 		},
-		Cases:           map[string]int{"quick": enumCases + 500, "thorough": enumCases + 12000},
+		Cases: map[string]int{"quick": enumCases + 500, "thorough": enumCases + 12000},
+		// pure CPU-bound cases: the watchdog only has to catch a genuine hang, not CPU starvation on a loaded host
+		CaseTimeout:     20 * time.Minute,
 		RequireCounters: []string{"roundtrip_plain", "roundtrip_p1", "roundtrip_d1", "roundtrip_join", "roundtrip_leave", "e2e_p1", "e2e_d1", "e2e_join", "total_rejected", "total_accepted", "enum_inputs", "mutated_inputs"},
 		Run:             run,
 		// tiny live heap, millions of short-lived strings: collect less often (harness-side only)
